@@ -38,16 +38,24 @@ def main():
     try:
         env = dict(os.environ)
         env["PYTHONPATH"] = os.path.join(wt, "src")
-        demo = os.path.join(sdir, "demo.py")
-        shutil.copy(demo, os.path.join(wt, "seed_demo.py"))
+        # same layout as the seeder used: <worktree>/SEED/<mX>/demo.py (demos locate the tree relative to themselves)
+        ddir = os.path.join(wt, "SEED", os.path.basename(os.path.normpath(sdir)))
+        os.makedirs(ddir, exist_ok=True)
+        for n in os.listdir(sdir):
+            if n.endswith((".py", ".md", ".diff", ".json", ".yaml", ".txt")) and os.path.isfile(os.path.join(sdir, n)):
+                shutil.copy(os.path.join(sdir, n), os.path.join(ddir, n))
+        demo_path = os.path.join(ddir, "demo.py")
 
         def run_demo():
             e = dict(env)
             e["LIAN_ROOT"] = wt
             e["SEED_WORKTREE"] = wt
             e["LIAN_WT"] = wt
+            e["LIAN_TREE"] = wt
+            e["WT"] = wt
+            e["WORKTREE"] = wt
             e["LIAN_SRC"] = os.path.join(wt, "src")
-            p = run(["/venv/bin/python", os.path.join(wt, "seed_demo.py")] + demo_args, env=e, cwd=wt, timeout=1800)
+            p = run(["/venv/bin/python", demo_path] + demo_args, env=e, cwd=wt, timeout=1800)
             return p.returncode, (p.stdout + p.stderr)[-600:]
         rc0, out0 = run_demo()
         meta["ran"].append({"what": "demo on unchanged HEAD %s" % head, "exit": rc0})
